@@ -201,22 +201,48 @@ macro_rules! shape_impl {
             #[allow(unused_assignments, unused_mut, unused_variables)]
             fn build_tl(spec: &$crate::spec::TlSpec) -> $tl {
                 use ::mina::{Animate as _, KeyframeBuilder as _, TimelineConfigurationBuilder as _};
-                let mut b = <$anim>::timeline()
-                    .duration_seconds(spec.cycle)
-                    .delay_seconds(spec.delay)
-                    .repeat(spec.repeat.to_mina())
-                    .reverse(spec.reverse);
-                if let Some(e) = &spec.default_easing {
+                // The builder calls commute, so the order they are made in varies with the specification
+                // (deterministically: twins built from equal specifications are built identically): timing and
+                // default easing before or after the keyframes, a keyframe's easing before, between or after
+                // its value setters.
+                let timing_last = (spec.kfs.len() / 2) % 2 == 1;
+                let easing_last = spec.kfs.len() % 2 == 1;
+                let mut b = <$anim>::timeline();
+                if !timing_last {
+                    b = b.duration_seconds(spec.cycle).delay_seconds(spec.delay).repeat(spec.repeat.to_mina()).reverse(spec.reverse);
+                }
+                if let (false, Some(e)) = (easing_last, &spec.default_easing) {
                     b = b.default_easing(e.make());
                 }
-                for kf in &spec.kfs {
+                for (ki, kf) in spec.kfs.iter().enumerate() {
                     let mut k = <$anim>::keyframe(kf.pos);
+                    let slot = ((kf.pos.to_bits() >> 3) as usize ^ ki.wrapping_mul(7)) % 3; // 0 last, 1 first, 2 after the first value
+                    let mut pending = kf.easing.as_ref();
+                    if slot == 1 {
+                        if let Some(e) = pending.take() { k = k.easing(e.make()); }
+                    }
                     let mut idx = 0usize;
-                    $( if let Some(v) = kf.vals.get(idx).copied().flatten() { k = k.$af(v as $aty); } idx += 1; )*
-                    if let Some(e) = &kf.easing {
+                    let mut given = 0usize;
+                    $(
+                        if let Some(v) = kf.vals.get(idx).copied().flatten() {
+                            k = k.$af(v as $aty);
+                            given += 1;
+                            if slot == 2 && given == 1 {
+                                if let Some(e) = pending.take() { k = k.easing(e.make()); }
+                            }
+                        }
+                        idx += 1;
+                    )*
+                    if let Some(e) = pending.take() {
                         k = k.easing(e.make());
                     }
                     b = b.keyframe(k);
+                }
+                if let (true, Some(e)) = (easing_last, &spec.default_easing) {
+                    b = b.default_easing(e.make());
+                }
+                if timing_last {
+                    b = b.reverse(spec.reverse).repeat(spec.repeat.to_mina()).delay_seconds(spec.delay).duration_seconds(spec.cycle);
                 }
                 ::mina::TimelineBuilder::build(b)
             }
